@@ -8,12 +8,14 @@ LEVEL = "model_checking"
 ENGINE = "schedule-explorer"
 TECHNIQUE = ("stateless exhaustive schedule exploration of real threads running real MPIR calls under a controlled scheduler (iterative preemption "
              "bounding), a page-protection write monitor on the library's static segment and on the shared source operands, and a free-running ThreadSanitizer pass")
-RULE = ("implementation-level stateless model checking: T real threads each run one (or two) operations from a 25-entry menu of reentrant calls (one per "
+RULE = ("implementation-level stateless model checking: T real threads each run one (or two) operations from a 40-entry menu of reentrant calls (one per "
         "anchored shortcut: stack/heap/FFT scratch, division, gcdext, powm, radix conversion above the power-table size, factorial/Fibonacci/binomial, "
         "primality with the internal random state, private MT and LC generators and copies, formatted I/O, mpf, mpq, mpn) on the SAME read-only source "
         "objects; every ordered pair (triples: a fixed fifth) is a harness.  The library's writable static segment (found with dl_iterate_phdr, "
         "LD_BIND_NOW) and the shared sources are mapped read-only: any write traps and is a violation (shared mutable state the manual does not list); "
-        "without one, threads touch only private memory and all interleavings are equivalent.  The explorer still enumerates EVERY schedule with <= PB "
+        "without one, threads touch only private memory and all interleavings are equivalent.  The same monitor is applied, schedule-independently, to EVERY "
+        "public function parsed from mpir.h (api sweep: inputs - structs and limbs - in a read-only arena, one call per argument tuple) and to hand-written calls "
+        "of the entry points the table cannot express; its self test must trap a known write.  The explorer still enumerates EVERY schedule with <= PB "
         "preemptions over the scheduling points (operation boundaries, the first 6 allocator calls of an operation and every 2^k-th after) and compares "
         "each thread's digest with its sequential run; every failing schedule is replayable.  The same bodies run free under ThreadSanitizer. states = "
         "schedules executed, transitions = scheduling decisions.")
@@ -22,6 +24,400 @@ ASSUMPTIONS = ["page (4 KiB) granularity over-approximates sharing; memory-model
                "allocator scheduling points are thinned (first 6, then powers of two per operation): sound only together with the write monitor"]
 ROOT = os.path.dirname(os.path.dirname(os.path.dirname(os.path.abspath(__file__))))
 SRC = os.path.join(ROOT, "mc", "sched", "c15.c")
+
+
+# ----------------------------------------------------------------------------------------------------------------------------
+# API sweep under the write monitor (run through mc.runpass with LD_BIND_NOW=1): EVERY public function of the parsed table is called
+# once per argument tuple with all its inputs (structs and limbs) placed in a read-only arena and libmpir's writable static segment
+# mapped read-only.  A single trapped write is shared mutable state the manual does not list: it makes concurrent calls on shared
+# sources a race regardless of the schedule, so no schedule enumeration is needed for this part.
+BUDGET = {"quick": 600, "thorough": 2400}
+
+
+def passes(tier):
+    return ["pin"]
+
+
+def load(variant):
+    from .. import lib
+    lib.load(variant)
+
+
+def spaces(tier, variant, seed):
+    import ctypes, itertools
+    from ctypes import c_void_p, c_size_t, c_long, c_int, addressof, memmove
+    from fractions import Fraction
+    from .. import lib, api, alphabet as al
+    from ..explore import Space
+    quick = tier == "quick"
+    S = lib.S
+    S.v_mon_init.restype = c_int
+    S.v_mon_init.argtypes = [c_size_t]
+    S.v_mon_arena.restype = c_void_p
+    S.v_mon_traps.restype = c_long
+    for nm in ("v_mon_trap_addr", "v_mon_trap_rip", "v_mon_seg_lo", "v_mon_seg_hi"):
+        getattr(S, nm).restype = c_size_t
+        getattr(S, nm).argtypes = [c_int]
+    st = {"init": False}
+    T = api.table()
+    names = sorted(n for n in T if api.SCALARS.get(n, 1) is not None)
+    FPREC = 128
+
+    def init():
+        if not st["init"]:
+            if S.v_mon_init(1 << 20) <= 0:
+                raise RuntimeError("write monitor: libmpir's writable segment not found")
+            st["base"] = S.v_mon_arena()
+            st["init"] = True
+            st["syms"] = None
+
+    def place(off, raw):
+        memmove(st["base"] + off, raw, len(raw))
+        return off + ((len(raw) + 15) & ~15)
+
+    def put_z_at(off, struct_addr, v):
+        """limbs of |v| at arena offset off; fills the MPZ at struct_addr; returns next offset"""
+        n = al.nl(abs(v))
+        raw = abs(v).to_bytes(8 * max(n, 1), "little")
+        z = lib.MPZ.from_address(struct_addr)
+        z.alloc, z.size, z.d = max(n, 1), (n if v >= 0 else -n), st["base"] + off
+        return place(off, raw)
+
+    def sw_cases(blk):
+        name = blk
+        if name == "#selftest":
+            yield (name, ())
+            return
+        fn = T[name]
+        doms = []
+        for i, (k, r) in enumerate(fn.params):
+            if k in "ZQF" and r == "o":
+                doms.append([None])
+            else:
+                vals = api.default_vals(k, fn.name, i, True)
+                doms.append(vals[:6] if quick else vals[:10])
+        cnt = 0
+        for args in itertools.product(*doms):
+            if not api.precondition(fn, args):
+                continue
+            cnt += 1
+            if cnt > (48 if quick else 400):
+                break
+            yield (name, args)
+
+    def sw_one(case, R):
+        name, args = case
+        init()
+        if name == "#selftest":
+            # the monitor must see (1) a write to the library's static data: mpf_set_default_prec stores the global default precision,
+            # (2) a write to an input placed in the arena: mpz_neg in place on an arena object flips its size field
+            gp = lib.fn("mpf_get_default_prec", ctypes.c_ulong)
+            sp_ = lib.fn("mpf_set_default_prec", None, ctypes.c_ulong)
+            cur = gp()
+            S.v_mon_reset(); S.v_mon_set(1)
+            sp_(cur)
+            S.v_mon_set(0)
+            t1 = S.v_mon_traps()
+            sa = st["base"]
+            put_z_at(16, sa, 12345)
+            fneg = lib.fn("mpz_neg", None, c_void_p, c_void_p)
+            S.v_mon_reset(); S.v_mon_set(1)
+            fneg(sa, sa)
+            S.v_mon_set(0)
+            t2 = S.v_mon_traps()
+            if t1 < 1 or t2 < 1 or lib.zget(sa) != -12345:
+                R.fail("monitor-selftest", "the write monitor did not trap a known write (static data: %d trap(s), arena operand: %d trap(s)) - LD_BIND_NOW set? segment found?" % (t1, t2))
+            R.count("monitor_selftest_traps", t1 + t2)
+            return ("selftest", t1 > 0, t2 > 0)
+        fn = T[name]
+        off = 0
+        cargs = []
+        keep = []
+        for (k, r), a in zip(fn.params, args):
+            if k in "ZQF" and r in ("o", "w"):
+                if k == "Z":
+                    o = lib.Z()
+                    if a is not None:
+                        o.set(a)
+                elif k == "Q":
+                    o = lib.Q()
+                    if a is not None:
+                        o.set(a.numerator, a.denominator)
+                else:
+                    o = lib.F(FPREC)
+                    if a is not None:
+                        o.set_frac(a)
+                keep.append(o)
+                cargs.append(o.p)
+            elif k == "Z":
+                sa = st["base"] + off
+                off += 16
+                off = put_z_at(off, sa, a)
+                cargs.append(sa)
+            elif k == "Q":
+                sa = st["base"] + off
+                off += 32
+                off = put_z_at(off, sa, a.numerator)
+                off = put_z_at(off, sa + 16, a.denominator)
+                cargs.append(sa)
+            elif k == "F":
+                # build the value in an ordinary mpf, then copy struct and limbs into the arena
+                o = lib.F(FPREC)
+                o.set_frac(a)
+                keep.append(o)
+                src = lib.MPF.from_address(o.p)
+                n = abs(src.size)
+                sa = st["base"] + off
+                off += 32
+                dst = lib.MPF.from_address(sa)
+                dst.prec, dst.size, dst.exp, dst.d = src.prec, src.size, src.exp, st["base"] + off
+                off = place(off, ctypes.string_at(src.d, 8 * max(n, 1)))
+                cargs.append(sa)
+            else:
+                cargs.append(a)
+        f = fn.f()
+        S.v_mon_reset()
+        S.v_mon_set(1)
+        try:
+            f(*cargs)
+        finally:
+            S.v_mon_set(0)
+        nt = S.v_mon_traps()
+        if nt:
+            what = []
+            for i in range(min(nt, 3)):
+                a_, rip = S.v_mon_trap_addr(i), S.v_mon_trap_rip(i)
+                what.append("%s written from %s" % (_symbolize(a_, st), _symbolize(rip, st)))
+            R.fail(name, "args %s: %d write(s) to shared storage (library static data or an input operand): %s" % (str(args)[:160], nt, "; ".join(what)))
+        R.count("states", 1)
+        return (name, nt == 0)
+
+    # ---- entry points the parsed table cannot express (random states, strings, raw buffers, varargs, mpn): hand-written calls ----
+    P = c_void_p
+    M521 = (1 << 521) - 1
+    BIGZ = [M521, 1000003, (1 << 89) - 1, 1000003 * 1000033, (1 << 127) - 1, ((1 << 521) - 1) * ((1 << 89) - 1), al.PAT(40, 3)["dense"] | 1, (1 << 2000) + 1, 97, 1]
+
+    class Ar:
+        """bump allocation of read-only inputs in the monitor arena (reset per case)"""
+        def __init__(self):
+            self.off = 0
+
+        def z(self, v):
+            sa = st["base"] + self.off
+            self.off += 16
+            self.off = put_z_at(self.off, sa, v)
+            return sa
+
+        def limbs(self, v, n):
+            a = st["base"] + self.off
+            self.off = place(self.off, v.to_bytes(8 * n, "little"))
+            return a
+
+        def bytes_(self, b):
+            a = st["base"] + self.off
+            self.off = place(self.off, b + b"\0")
+            return a
+
+        def q(self, fr):
+            sa = st["base"] + self.off
+            self.off += 32
+            self.off = put_z_at(self.off, sa, fr.numerator)
+            self.off = put_z_at(self.off, sa + 16, fr.denominator)
+            return sa
+
+        def f(self, fr, keep):
+            o = lib.F(FPREC)
+            o.set_frac(fr)
+            keep.append(o)
+            src = lib.MPF.from_address(o.p)
+            n = abs(src.size)
+            sa = st["base"] + self.off
+            self.off += 32
+            dst = lib.MPF.from_address(sa)
+            dst.prec, dst.size, dst.exp, dst.d = src.prec, src.size, src.exp, st["base"] + self.off
+            self.off = place(self.off, ctypes.string_at(src.d, 8 * max(n, 1)))
+            return sa
+
+    def mon(R, label, f, *cargs):
+        S.v_mon_reset()
+        S.v_mon_set(1)
+        try:
+            r = f(*cargs)
+        finally:
+            S.v_mon_set(0)
+        nt = S.v_mon_traps()
+        if nt:
+            what = ["%s written from %s" % (_symbolize(S.v_mon_trap_addr(i), st), _symbolize(S.v_mon_trap_rip(i), st)) for i in range(min(nt, 3))]
+            R.fail(label, "%d write(s) to shared storage (library static data or an input operand): %s" % (nt, "; ".join(what)))
+        R.count("states", 1)
+        return r
+
+    def rstate(kind, seed):
+        stt = (ctypes.c_char * 64)()
+        p = addressof(stt)
+        if kind == 0:
+            lib.fn("gmp_randinit_default", None, P)(p)
+        elif kind == 1:
+            lib.fn("gmp_randinit_mt", None, P)(p)
+        else:
+            lib.fn("gmp_randinit_lc_2exp_size", c_int, P, ctypes.c_ulong)(p, 64)
+        lib.fn("gmp_randseed_ui", None, P, ctypes.c_ulong)(p, seed)
+        return stt, p
+
+    UL, SZ = ctypes.c_ulong, c_size_t
+    g_snprintf = lib.sym("gmp_snprintf")
+    g_sscanf = lib.sym("gmp_sscanf")
+
+    def ex_cases(blk):
+        what = blk
+        n = {"prime": len(BIGZ), "random": 9, "strings": len(BIGZ), "printf": 6, "mpn": 12, "export": len(BIGZ)}[what]
+        for i in range(n):
+            yield (what, i)
+
+    def ex_one(case, R):
+        what, i = case
+        init()
+        A = Ar()
+        keep = []
+        r = lib.Z()
+        r2 = lib.Z()
+        if what == "prime":
+            v = BIGZ[i]
+            for kind in (0, 1, 2):
+                stt, p = rstate(kind, 77 + i)
+                zn = A.z(v)
+                mon(R, "mpz_probable_prime_p", lib.fn("mpz_probable_prime_p", c_int, P, P, c_int, UL), zn, p, 10, 0)
+                mon(R, "mpz_likely_prime_p", lib.fn("mpz_likely_prime_p", c_int, P, P, UL), zn, p, 0)
+                mon(R, "mpz_next_prime_candidate", lib.fn("mpz_next_prime_candidate", None, P, P, P), r.p, zn, p)
+                mon(R, "mpz_miller_rabin", lib.fn("mpz_miller_rabin", c_int, P, c_int, P), zn, 5, p)
+                lib.fn("gmp_randclear", None, P)(p)
+            zn = A.z(v)
+            mon(R, "mpz_probab_prime_p", lib.fn("mpz_probab_prime_p", c_int, P, c_int), zn, 10)
+            mon(R, "mpz_nextprime", lib.fn("mpz_nextprime", None, P, P), r.p, zn)
+            mon(R, "mpz_millerrabin", lib.fn("mpz_millerrabin", c_int, P, c_int), zn, 5)
+        elif what == "random":
+            kind, j = i % 3, i // 3
+            stt, p = rstate(kind, 5 + j)
+            zm = A.z([3, (1 << 64), al.PAT(5, 1)["dense"]][j])
+            mon(R, "mpz_urandomm", lib.fn("mpz_urandomm", None, P, P, P), r.p, p, zm)
+            mon(R, "mpz_urandomb", lib.fn("mpz_urandomb", None, P, P, UL), r.p, p, 300 + j)
+            mon(R, "mpz_rrandomb", lib.fn("mpz_rrandomb", None, P, P, UL), r.p, p, 300 + j)
+            mon(R, "gmp_urandomb_ui", lib.fn("gmp_urandomb_ui", UL, P, UL), p, 33)
+            mon(R, "gmp_urandomm_ui", lib.fn("gmp_urandomm_ui", UL, P, UL), p, 1000003)
+            fo = lib.F(FPREC)
+            mon(R, "mpf_urandomb", lib.fn("mpf_urandomb", None, P, P, UL), fo.p, p, 100)
+            mon(R, "gmp_randseed", lib.fn("gmp_randseed", None, P, P), p, zm)
+            st2 = (ctypes.c_char * 64)()
+            mon(R, "gmp_randinit_set", lib.fn("gmp_randinit_set", None, P, P), addressof(st2), p)
+            lib.fn("gmp_randclear", None, P)(addressof(st2))
+            lib.fn("gmp_randclear", None, P)(p)
+        elif what == "strings":
+            v = BIGZ[i] * (-1 if i % 2 else 1)
+            zn = A.z(v)
+            buf = ctypes.create_string_buffer(4096)
+            for base in (2, 10, 16, 36, 62, -36):
+                mon(R, "mpz_get_str", lib.fn("mpz_get_str", P, P, c_int, P), addressof(buf), base, zn)
+                mon(R, "mpz_sizeinbase", lib.fn("mpz_sizeinbase", SZ, P, c_int), zn, abs(base))
+            sp_ = A.bytes_(lib.int_to_str(v, 10).encode() if hasattr(lib, "int_to_str") else str(v).encode())
+            mon(R, "mpz_set_str", lib.fn("mpz_set_str", c_int, P, P, c_int), r.p, sp_, 10)
+            mon(R, "mpz_init_set_str+clear", lib.fn("mpz_set_str", c_int, P, P, c_int), r2.p, sp_, 0)
+            qn = A.q(Fraction(v, 1000003))
+            mon(R, "mpq_get_str", lib.fn("mpq_get_str", P, P, c_int, P), addressof(buf), 10, qn)
+            qo = lib.Q()
+            mon(R, "mpq_set_str", lib.fn("mpq_set_str", c_int, P, P, c_int), qo.p, A.bytes_(b"-22/7"), 10)
+            fn_ = A.f(Fraction(v % (1 << 100), 1 << 40), keep)
+            ex = c_long(0)
+            mon(R, "mpf_get_str", lib.fn("mpf_get_str", P, P, P, c_int, SZ, P), addressof(buf), ctypes.addressof(ex), 10, 30, fn_)
+            fo = lib.F(FPREC)
+            mon(R, "mpf_set_str", lib.fn("mpf_set_str", c_int, P, P, c_int), fo.p, A.bytes_(b"-3.1415926535897932384626e-5"), 10)
+        elif what == "printf":
+            v = BIGZ[i]
+            zn, qn, fn_ = A.z(-v), A.q(Fraction(v, 7)), A.f(Fraction(v % (1 << 90), 1 << 30), keep)
+            buf = ctypes.create_string_buffer(8192)
+            fmt = A.bytes_(b"%Zd|%#Zx|%40Qd|%.10Fe|%Fg|%.3Ff|%d|%s")
+            mon(R, "gmp_snprintf", g_snprintf, c_void_p(addressof(buf)), c_size_t(8192), c_void_p(fmt), c_void_p(zn), c_void_p(zn), c_void_p(qn), c_void_p(fn_), c_void_p(fn_), c_void_p(fn_), c_int(5), c_void_p(A.bytes_(b"tail")))
+            zo, qo, fo = lib.Z(), lib.Q(), lib.F(FPREC)
+            mon(R, "gmp_sscanf", g_sscanf, c_void_p(A.bytes_(b"123456789012345678901234567890 -22/7 1.5e3")), c_void_p(A.bytes_(b"%Zd %Qd %Ff")), c_void_p(zo.p), c_void_p(qo.p), c_void_p(fo.p))
+        elif what == "export":
+            v = BIGZ[i]
+            zn = A.z(v)
+            buf = ctypes.create_string_buffer(8192)
+            cnt = c_size_t(0)
+            for size, nails, endian, order in ((1, 0, 0, 1), (4, 3, 1, -1), (8, 0, -1, 1), (16, 64, 0, 1), (3, 7, 1, -1)):
+                mon(R, "mpz_export", lib.fn("mpz_export", P, P, P, c_int, SZ, c_int, SZ, P), addressof(buf), ctypes.addressof(cnt), order, size, endian, nails, zn)
+                src = A.bytes_(buf.raw[:cnt.value * size])
+                mon(R, "mpz_import", lib.fn("mpz_import", None, P, SZ, c_int, SZ, c_int, SZ, P), r.p, cnt.value, order, size, endian, nails, src)
+            mon(R, "mpz_get_d", lib.fn("mpz_get_d", ctypes.c_double, P), zn)
+            e_ = c_long(0)
+            mon(R, "mpz_get_d_2exp", lib.fn("mpz_get_d_2exp", ctypes.c_double, P, P), ctypes.addressof(e_), zn)
+        elif what == "mpn":
+            sizes = [(1, 1), (2, 1), (5, 3), (16, 16), (17, 4), (40, 40), (64, 20), (130, 70), (300, 120), (600, 9), (1100, 8), (260, 260)]
+            un, vn = sizes[i]
+            u, v = al.PAT(un, i)["dense"] | (1 << (64 * un - 1)), al.PAT(vn, i + 1)["dense"] | (1 << (64 * vn - 1)) | 1
+            up, vp = A.limbs(u, un), A.limbs(v, vn)
+            out = (ctypes.c_uint64 * (un + vn + 4))()
+            out2 = (ctypes.c_uint64 * (un + vn + 4))()
+            po, po2 = addressof(out), addressof(out2)
+            mon(R, "mpn_mul", lib.fn("mpn_mul", ctypes.c_uint64, P, P, c_long, P, c_long), po, up, un, vp, vn)
+            mon(R, "mpn_sqr", lib.fn("mpn_sqr", None, P, P, c_long), po, vp, vn)
+            mon(R, "mpn_tdiv_qr", lib.fn("mpn_tdiv_qr", None, P, P, c_long, P, c_long, P, c_long), po, po2, 0, up, un, vp, vn)
+            mon(R, "mpn_add_n", lib.fn("mpn_add_n", ctypes.c_uint64, P, P, P, c_long), po, up, vp, vn)
+            mon(R, "mpn_sub", lib.fn("mpn_sub", ctypes.c_uint64, P, P, c_long, P, c_long), po, up, un, vp, vn)
+            mon(R, "mpn_lshift", lib.fn("mpn_lshift", ctypes.c_uint64, P, P, c_long, ctypes.c_uint), po, up, un, 13)
+            mon(R, "mpn_rshift", lib.fn("mpn_rshift", ctypes.c_uint64, P, P, c_long, ctypes.c_uint), po, up, un, 13)
+            mon(R, "mpn_divrem_1", lib.fn("mpn_divrem_1", ctypes.c_uint64, P, c_long, P, c_long, ctypes.c_uint64), po, 0, up, un, 1000003)
+            mon(R, "mpn_mod_1", lib.fn("mpn_mod_1", ctypes.c_uint64, P, c_long, ctypes.c_uint64), up, un, (1 << 63) + 5)
+            mon(R, "mpn_popcount", lib.fn("mpn_popcount", ctypes.c_ulong, P, c_long), up, un)
+            mon(R, "mpn_hamdist", lib.fn("mpn_hamdist", ctypes.c_ulong, P, P, c_long), up, vp, vn)
+            mon(R, "mpn_cmp", lib.fn("mpn_cmp", c_int, P, P, c_long), up, vp, vn)
+            mon(R, "mpn_sqrtrem", lib.fn("mpn_sqrtrem", c_long, P, P, P, c_long), po, po2, up, un)
+            mon(R, "mpn_perfect_square_p", lib.fn("mpn_perfect_square_p", c_int, P, c_long), up, un)
+            mon(R, "mpn_mul_1", lib.fn("mpn_mul_1", ctypes.c_uint64, P, P, c_long, ctypes.c_uint64), po, up, un, 12345)
+            mon(R, "mpn_addmul_1", lib.fn("mpn_addmul_1", ctypes.c_uint64, P, P, c_long, ctypes.c_uint64), po, up, un, 12345)
+            mon(R, "mpn_gcd_1", lib.fn("mpn_gcd_1", ctypes.c_uint64, P, c_long, ctypes.c_uint64), up, un, 1000003 * 6)
+            digs = A.bytes_(bytes((j * 7 + 1) % 10 for j in range(3 * un + 5)))
+            mon(R, "mpn_set_str", lib.fn("mpn_set_str", c_long, P, P, SZ, c_int), po, digs, 3 * un + 5, 10)
+        return (what, i)
+
+    return [Space("entry_points_write_monitor", ["prime", "random", "strings", "printf", "export", "mpn"], ex_cases, ex_one,
+                  "hand-written calls of the entry points the table cannot express (primality with caller-owned random states, random functions, string/raw conversions, "
+                  "gmp_snprintf/gmp_sscanf, mpn kernels at 12 shapes) with every input in the read-only arena"),
+            Space("api_sweep_write_monitor", ["#selftest"] + names, sw_cases, sw_one,
+                  "%d public functions (parsed from mpir.h) x argument tuples: inputs (structs and limbs) in a read-only arena, libmpir's writable static segment read-only; any trapped write is a violation" % len(names))]
+
+
+def _symbolize(addr, st):
+    """name the library symbol that contains addr (nm on the loaded libmpir.so), or say that it is an input operand"""
+    from .. import lib
+    import subprocess as sp_
+    base = st.get("base")
+    if base and base <= addr < base + (1 << 20):
+        return "input operand (arena+%#x)" % (addr - base)
+    if st.get("syms") is None:
+        syms = []
+        lo = None
+        for line in open("/proc/self/maps"):
+            f = line.split()
+            if len(f) >= 6 and f[5] == os.path.realpath(lib.META["so"]):
+                a = int(f[0].split("-")[0], 16)
+                lo = a if lo is None else min(lo, a)
+        try:
+            out = sp_.run(["nm", "-n", "--defined-only", lib.META["so"]], capture_output=True, text=True).stdout
+            for l in out.splitlines():
+                p = l.split()
+                if len(p) == 3:
+                    syms.append((int(p[0], 16), p[2]))
+        except Exception:
+            pass
+        st["syms"], st["lo"] = syms, lo or 0
+    rel = addr - st["lo"]
+    best = None
+    for a, n in st["syms"]:
+        if a <= rel:
+            best = (a, n)
+        else:
+            break
+    return "%s+%#x" % (best[1], rel - best[0]) if best else hex(addr)
 
 
 def _compile(meta, out, tsan=False):
@@ -133,14 +529,31 @@ def main(tier, seed, replay):
                 viol.append({"space": "tsan-free-running", "kind": "data-race", "msg": "ThreadSanitizer: " + rep[:900], "case": rep.split("\n")[0][:200], "args": ["--free"]})
         except Exception as e:
             viol.append({"space": "tsan-free-running", "kind": "engine-error", "msg": "cannot run the ThreadSanitizer pass: %r" % e, "case": "tsan", "args": []})
+        # API sweep under the write monitor (separate process: needs LD_BIND_NOW for the ctypes-loaded library)
+        sweep = None
+        try:
+            so = os.path.join(work, "sweep.json")
+            senv = dict(os.environ, LD_BIND_NOW="1")
+            r = subprocess.run([sys.executable, "-m", "mc.runpass", ID, tier, "pin", so, str(BUDGET[tier])], cwd=ROOT, env=senv, capture_output=True, text=True, timeout=BUDGET[tier] + 1800)
+            if r.returncode != 0 or not os.path.exists(so):
+                viol.append({"space": "api_sweep_write_monitor", "kind": "engine-error", "msg": "the api sweep did not run: exit %s %s" % (r.returncode, (r.stderr or "")[-600:]), "case": "sweep", "args": []})
+            else:
+                sweep = json.load(open(so))
+                sweep["variant"] = "pin:api-sweep"
+                if not sweep.get("extra", {}).get("monitor_selftest_traps"):
+                    viol.append({"space": "api_sweep_write_monitor", "kind": "engine-error", "msg": "the write monitor's self test did not run", "case": "sweep", "args": []})
+        except Exception as e:
+            viol.append({"space": "api_sweep_write_monitor", "kind": "engine-error", "msg": "cannot run the api sweep: %r" % e, "case": "sweep", "args": []})
         results = [{"variant": "pin+tsan", "n": stats["executions"] + tsan_runs, "distinct": stats["executions"], "nfail": len(viol), "fails": viol[:50], "samples": [
             {"harness": "threads run [mul_fft] and [get_str] on the same sources", "schedule": "0 0 0 1 1 0 1 (thread chosen at each scheduling point; <=2 preemptions)"},
             {"configurations": per_conf}], "blocks": stats["harnesses"], "total_blocks": stats["harnesses"],
             "per_space": {"schedule_exploration": [stats["executions"], stats["harnesses"]], "tsan_free_running": [tsan_runs, 1]},
             "extra": dict(stats, tsan_runs=tsan_runs, tsan_reports=len(tsan_reports)), "errors": [], "exhaustive": stats["capped"] == 0 and not any(v["kind"] in ("hang", "crash", "engine-error") for v in viol),
             "wall_s": round(time.time() - t0, 1),
-            "spaces": [{"name": "schedule_exploration", "blocks": stats["harnesses"], "doc": "every ordered pair of 25 menu operations x every schedule with <= PB preemptions; write monitor on static segment and shared sources"},
+            "spaces": [{"name": "schedule_exploration", "blocks": stats["harnesses"], "doc": "every ordered pair of 40 menu operations x every schedule with <= PB preemptions; write monitor on static segment and shared sources"},
                        {"name": "tsan_free_running", "blocks": 1, "doc": "same bodies, free running, ThreadSanitizer build of the library"}]}]
+        if sweep is not None:
+            results.append(sweep)
         import mc.props.C15 as me
         return report.finish(me, ID, tier, seed, results, time.time() - t0,
                              extra_cov={"states": max(1, stats["executions"]), "transitions": max(1, stats["scheduling_decisions"]), "traces_validated_against_impl": stats["executions"],
